@@ -41,7 +41,8 @@ let clients = ["cl1"; "cl2"]
 let payload () : n list =
   (* now and then a payload whose datagram would exceed 65535 bytes (sizes that wrap 16-bit arithmetic) *)
   let l = if rnd 400 = 0 then pick [65529; 65536; 70000; 73000]
-    else pickw [ (6, rnd 6); (2, 0); (2, 20 + rnd 40); (1, 250 + rnd 10); (1, 7168) ] in
+    else pickw [ (12, rnd 6); (4, 0); (4, 20 + rnd 40); (2, 250 + rnd 10); (2, 7168);
+                 (1, pick [8182; 8183; 8184; 8186; 9000]) (* around the 8192-byte datagram limit *) ] in
   List.init l (fun k -> nn ((k * 7 + l) land 255))
 
 let gen_predef () : string =
@@ -287,6 +288,10 @@ let gen_history ?(cfgstr : string option) (idx : int) (prof : profile) (oc : out
          let next = (match t with
              (* a datagram of the previous step of the exchange arrives again, late *)
              | TxBrokerPub (mid, _, AwaitPubcomp, _, _, _) when stale -> Some (ev_sn (Pubrec mid))
+             (* a late acknowledgement (accepting or rejecting) of an EARLIER exchange with the same message ID
+                arrives while this one still waits for the REGACK of its REGISTER step *)
+             | TxBrokerPub (mid, q, AwaitRegack, RsSn (Register (tid, _, _)), _, _) when stale && int_of_n q > 0 ->
+               Some (ev_sn (if int_of_n q = 1 then Puback (tid, mid, nn (pick [0; 1; 2; 3])) else Pubrec mid))
              | TxBrokerPub (mid, q, (AwaitPuback | AwaitPubrec), _, Some (Publish (_, _, _, _, tid, _, _)), _) when stale && int_of_n q > 0 ->
                Some (ev_sn (Regack (tid, mid, nn 0)))
              | TxBrokerPub (mid, _, st, data, snpub, _) ->
